@@ -813,6 +813,8 @@ class Interp:
     def contains(self, container, item, node):
         if isinstance(container, Ref):
             o = self.deref(container)
+            if isinstance(o, HObj) and isinstance(item, Const):
+                return ("const", item.value in o.attrs)  # attr in obj.__dict__
             if isinstance(o, HDict):
                 if isinstance(item, Const) and not o.each and not o.sym:
                     return ("const", item.value in o.entries)
@@ -886,6 +888,8 @@ class Interp:
                         return self.eval(expr)
                     finally:
                         self.state.frames.pop()
+                if attr in ("copy", "update", "items", "keys", "values", "get", "pop", "setdefault"):
+                    return MethV(v, attr)  # the object seen through its __dict__
                 self.log("attr.missing", node, obj=v, attr=attr, cls=o.cls)
                 return Sym(("attr", ("ref", v.oid), attr))
             r = M.obj_getattr(self, v, o, attr, node)
